@@ -34,10 +34,11 @@ struct DerivedTS {
 }
 
 impl DerivedTS {
-    fn into_impl(mut self, rust_ty: Ident, generics: Generics) -> TokenStream {
+    fn into_impl(mut self, rust_ty: Ident, generics: Generics) -> Result<TokenStream> {
         let export = self
             .export
-            .then(|| self.generate_export_test(&rust_ty, &generics));
+            .then(|| self.generate_export_test(&rust_ty, &generics))
+            .transpose()?;
 
         let output_path_fn = {
             let ts_name = &self.ts_name;
@@ -86,7 +87,7 @@ impl DerivedTS {
         let dependencies = &self.dependencies;
         let generics_fn = self.generate_generics_fn(&generics);
 
-        quote! {
+        Ok(quote! {
             #impl_start {
                 #assoc_type
                 type OptionInnerType = Self;
@@ -111,7 +112,7 @@ impl DerivedTS {
             }
 
             #export
-        }
+        })
     }
 
     /// Returns an expression which evaluates to the TypeScript name of the type, including generic
@@ -178,7 +179,17 @@ impl DerivedTS {
         }
     }
 
-    fn generate_export_test(&self, rust_ty: &Ident, generics: &Generics) -> TokenStream {
+    fn generate_export_test(&self, rust_ty: &Ident, generics: &Generics) -> Result<TokenStream> {
+        // the generated test exports one instantiation: there is a placeholder for every type
+        // parameter, but no value to choose for a const parameter
+        if let Some(param) = generics.const_params().find(|c| c.default.is_none()) {
+            syn_err!(
+                param.span();
+                "`export` cannot choose a value for this const parameter: give it a default, or \
+                 call `export_all()` on the instantiation you want instead of using `#[ts(export)]`"
+            );
+        }
+
         let test_fn = format_ident!(
             "export_bindings_{}",
             rust_ty.to_string().to_lowercase().replace("r#", "")
@@ -192,13 +203,13 @@ impl DerivedTS {
             });
         let ty = quote!(<#rust_ty<#(#generic_params),*> as #crate_rename::TS>);
 
-        quote! {
+        Ok(quote! {
             #[cfg(test)]
             #[test]
             fn #test_fn() {
                 #ty::export_all().expect("could not export type");
             }
-        }
+        })
     }
 
     fn generate_generics_fn(&self, generics: &Generics) -> TokenStream {
@@ -480,7 +491,7 @@ fn entry(input: proc_macro::TokenStream) -> Result<TokenStream> {
         _ => syn_err!(input.span(); "unsupported item"),
     };
 
-    Ok(ts.into_impl(ident, generics))
+    ts.into_impl(ident, generics)
 }
 
 // Verification hook (off by default): the body of `entry`, callable on a `proc_macro2`
@@ -494,7 +505,7 @@ fn verif_expand(input: TokenStream) -> Result<TokenStream> {
         _ => syn_err!(input.span(); "unsupported item"),
     };
 
-    Ok(ts.into_impl(ident, generics))
+    ts.into_impl(ident, generics)
 }
 
 // Verification hook (off by default): in-process monitor, source lives outside this repository.
